@@ -26,12 +26,13 @@ import (
 )
 
 type verifOp struct {
-	M    string         `json:"m"`
-	W    int            `json:"w"`    // which wrapper / address (several-address histories)
-	Form string         `json:"form"` // ctx | plain | canceled | deadline
-	Slot int            `json:"slot"` // blocking node of the address (#bopen, #bclose, BLPop family)
-	Alt  bool           `json:"alt"`  // through the second *Redis of the same address
-	A    c12raw.C12Args `json:"a"`
+	M     string         `json:"m"`
+	W     int            `json:"w"`     // which wrapper / address (several-address histories)
+	Form  string         `json:"form"`  // ctx | plain | canceled | deadline
+	Slot  int            `json:"slot"`  // blocking node of the address (#bopen, #bclose, BLPop family)
+	Alt   bool           `json:"alt"`   // through the second *Redis of the same address
+	Block bool           `json:"block"` // BLPop family: run even on an empty list (blocks for the timeout)
+	A     c12raw.C12Args `json:"a"`
 }
 
 type verifCase struct {
@@ -966,7 +967,9 @@ func verifDiff(c verifCase) any {
 			k := op.A.S(len(op.A) - 1)
 			lw, _ := sw[i].List(k)
 			lr, _ := sr[i].List(k)
-			if ((len(lw) == 0 || len(lr) == 0) && !dead) || restarted[i] || nodes[i][slot] == nil {
+			// op.Block: the EMPTY path on purpose -- the call must block for the caller's timeout (wall time is
+			// reported in 2 s buckets: [1 s, 3 s) -> 1, around 5 s -> 3) and end in redis.Nil
+			if ((len(lw) == 0 || len(lr) == 0) && !dead && !op.Block) || restarted[i] || nodes[i][slot] == nil {
 				steps = append(steps, map[string]any{"skip": "blocking"})
 				cancel()
 				continue
@@ -995,13 +998,26 @@ func verifDiff(c verifCase) any {
 			}
 			rv, re, rx, _ = c12raw.C12Raw(rawc, ctx, "EvalCtx", op.A)
 		} else {
+			t0 := time.Now()
 			wv, we, wx, ok = verifWrap(w, node, ctx, op.Form == "plain", op.M, op.A)
+			dw := time.Since(t0)
 			if !ok {
 				steps = append(steps, map[string]any{"skip": "unknown method " + op.M})
 				cancel()
 				continue
 			}
+			t0 = time.Now()
 			rv, re, rx, _ = c12raw.C12Raw(rawc, ctx, op.M, op.A)
+			dr := time.Since(t0)
+			if op.Block {
+				wx = "blocked~" + strconv.Itoa(int((dw+time.Second)/(2*time.Second)))
+				rx = "blocked~" + strconv.Itoa(int((dr+time.Second)/(2*time.Second)))
+			}
+			if c12raw.C12TTLSensitive[op.M] && len(op.A) > 0 {
+				// value AND time to live of the key on the two servers, right after the command
+				wx += "|" + c12raw.C12KeyState(op.A.S(0), sw[i])
+				rx += "|" + c12raw.C12KeyState(op.A.S(0), sr[i])
+			}
 		}
 		told := brk.told()
 		cancel()
